@@ -337,6 +337,28 @@ def fit_record(vc, rid, case):
                 o = objective(func, x, y, q, wv)
                 if o == o:
                     best = min(best, o)
+        # ... and along the scaled descent direction, at several step lengths (a 1 % step along one axis overshoots a
+        # steep narrow valley: fifth hunt round, exp3-smallmag2). Every probe is a nearby admissible perturbation.
+        sc = np.maximum(np.abs(p), 1e-12)      # relative to the size of each parameter (b = 3.6e-7 in exp3-smallmag2)
+        g = np.zeros(npar)
+        for i in range(npar):
+            h = 1e-6 * sc[i]
+            qp, qm = p.copy(), p.copy()
+            qp[i] += h
+            qm[i] -= h
+            g[i] = (objective(func, x, y, qp, wv) - objective(func, x, y, qm, wv)) / (2 * h)
+        d = -g * sc * sc
+        dmax = np.max(np.abs(d) / sc) if np.all(np.isfinite(d)) else 0.0
+        if dmax > 0:
+            for rel in (1e-2, 3e-3, 1e-3, 3e-4, 1e-4, 3e-5):
+                q = np.minimum(np.maximum(p + d * (rel / dmax), lo), hi)
+                if cons is not None and any(float(c["fun"](q)) < 0 for c in ([cons] if isinstance(cons, dict) else cons)):
+                    continue
+                if np.array_equal(q, p):
+                    continue
+                o = objective(func, x, y, q, wv)
+                if o == o:
+                    best = min(best, o)
     rec["objfit"] = Qc(ofit / scale, 1e9, 0, 2 * 10**9)
     rec["objstart"] = Qc(ostart / scale if ostart == ostart else np.inf, 1e9, 0, 2 * 10**9)
     rec["objpert"] = Qc(best / scale, 1e9, 0, 2 * 10**9)
@@ -379,6 +401,9 @@ FIXED_DATA = {
     # (a) small-magnitude data, the constraint a + 1 >= 0 is inactive everywhere inside the bounds: a stays at its start 1
     "exp3-smallmag": dict(x=[float(v) for v in range(1, 16)], y=[0.002 - 0.00003 * v for v in range(1, 16)],
                           cons=lambda p: p[0] + 1.0),
+    # (a2) fifth hunt round, the same mechanism on exact exp3 data of magnitude 0.004 .. 0.008 with the constraint a <= 1e6
+    "exp3-smallmag2": dict(x=[0.5 + v for v in range(15)], y=[0.0026 + 0.00136 * math.exp(0.0997 * (0.5 + v)) for v in range(15)],
+                           cons=lambda p: 1e6 - p[0]),
     # (b) no bounds, one linear constraint active at the optimum: a stage that hit the iteration limit is final
     "exp3-10pts-active": dict(x=[0.5737791871576916, 2.182786185234694, 3.4173209912196274, 5.138219107028386, 7.278075626925771,
                                  7.588736297720597, 8.40857427538906, 8.867360523679302, 9.556559088678954, 13.365524277982773],
@@ -415,6 +440,8 @@ def fit_cases(ctx):
     for ckind in ("inactive_dict", "inactive_list"):
         out.append(dict(shape=(exp3[0], exp3[1], (0.00176, 0.0, 1.0), [(0, None), (0, None), (0.5, 1.5)], False), weights="none",
                         cons=ckind, aslist=False, fixed="exp3-smallmag", n=15, noise=0.0, seed=0))
+    out.append(dict(shape=(exp3[0], exp3[1], (0.0026, 0.00136, 0.0997), [(None, None), (0, None), (0, None)], False), weights="none",
+                    cons="inactive_dict", aslist=False, fixed="exp3-smallmag2", n=15, noise=0.0, seed=0))
     out.append(dict(shape=(exp3[0], exp3[1], (-33.15, 33.85, 0.00984), None, False), weights="none", cons="active_list", aslist=False,
                     fixed="exp3-10pts-active", n=10, noise=0.0, seed=0))
     out.append(dict(shape=(exp3[0], exp3[1], (0.0, 0.291, -0.00206), exp3[3][0], False), weights="none", cons="none", aslist=False,
